@@ -1,0 +1,194 @@
+//! Read-only observation hooks for external runtime monitors.
+//!
+//! Compiled only with the `verif-hooks` feature. Nothing here changes the
+//! behaviour of a table: every function either copies state out of a table or
+//! forwards to one of the private pure functions of this module's parent.
+
+use super::*;
+use ::alloc::vec::Vec;
+
+/// A verbatim copy of the bookkeeping of a raw table.
+#[derive(Clone, Debug, PartialEq, Eq)]
+pub struct RawDump {
+    /// `Group::WIDTH` of the scanner this build uses.
+    pub group_width: usize,
+    /// `bucket_mask` (number of buckets minus one).
+    pub bucket_mask: usize,
+    /// `items`.
+    pub items: usize,
+    /// `growth_left`.
+    pub growth_left: usize,
+    /// Whether the table is the unallocated static singleton.
+    pub is_empty_singleton: bool,
+    /// The control bytes: `buckets + Group::WIDTH` bytes for an allocated
+    /// table, `Group::WIDTH` bytes for the static singleton.
+    pub ctrl: Vec<u8>,
+    /// Address of control byte 0.
+    pub ctrl_addr: usize,
+    /// `size_of::<T>()`.
+    pub elem_size: usize,
+    /// `align_of::<T>()`.
+    pub elem_align: usize,
+    /// Start address, size and alignment of the owned block as the table
+    /// computes them (`None` for the static singleton).
+    pub allocation: Option<(usize, usize, usize)>,
+}
+
+impl<T, A: Allocator> RawTable<T, A> {
+    pub(crate) fn verif_dump(&self) -> RawDump {
+        let singleton = self.table.is_empty_singleton();
+        let n = if singleton {
+            Group::WIDTH
+        } else {
+            self.table.num_ctrl_bytes()
+        };
+        let mut ctrl = Vec::with_capacity(n);
+        for i in 0..n {
+            ctrl.push(unsafe { *self.table.ctrl.as_ptr().add(i) });
+        }
+        let allocation = if singleton {
+            None
+        } else {
+            let (ptr, layout) = unsafe { self.table.allocation_info(Self::TABLE_LAYOUT) };
+            Some((ptr.as_ptr() as usize, layout.size(), layout.align()))
+        };
+        RawDump {
+            group_width: Group::WIDTH,
+            bucket_mask: self.table.bucket_mask,
+            items: self.table.items,
+            growth_left: self.table.growth_left,
+            is_empty_singleton: singleton,
+            ctrl,
+            ctrl_addr: self.table.ctrl.as_ptr() as usize,
+            elem_size: mem::size_of::<T>(),
+            elem_align: mem::align_of::<T>(),
+            allocation,
+        }
+    }
+
+    pub(crate) fn verif_bucket(&self, index: usize) -> Option<&T> {
+        if self.table.is_empty_singleton() || index >= self.buckets() {
+            return None;
+        }
+        unsafe {
+            if self.is_bucket_full(index) {
+                Some(self.bucket(index).as_ref())
+            } else {
+                None
+            }
+        }
+    }
+
+    pub(crate) fn verif_bucket_addr(&self, index: usize) -> Option<usize> {
+        if self.table.is_empty_singleton() || index >= self.buckets() {
+            return None;
+        }
+        Some(unsafe { self.bucket(index).as_ptr() } as usize)
+    }
+
+    /// Applies the real `RawIterRange::split` along the caller's decision
+    /// tree and drains every leaf with the real bounds-checked `next()`.
+    /// Returns the bucket indices produced by each leaf, left to right.
+    #[cfg(feature = "rayon")]
+    pub(crate) fn verif_split_leaves(
+        &self,
+        decide: &mut dyn FnMut(usize, usize) -> bool,
+    ) -> Vec<Vec<usize>> {
+        fn rec<T>(
+            range: RawIterRange<T>,
+            depth: usize,
+            base: NonNull<T>,
+            decide: &mut dyn FnMut(usize, usize) -> bool,
+            out: &mut Vec<Vec<usize>>,
+        ) {
+            let upper = range.size_hint().1.unwrap_or(0);
+            if decide(depth, upper) {
+                let (left, right) = range.split();
+                if let Some(right) = right {
+                    rec(left, depth + 1, base, decide, out);
+                    rec(right, depth + 1, base, decide, out);
+                    return;
+                }
+                leaf(left, base, out);
+            } else {
+                leaf(range, base, out);
+            }
+        }
+        fn leaf<T>(range: RawIterRange<T>, base: NonNull<T>, out: &mut Vec<Vec<usize>>) {
+            let mut v = Vec::new();
+            for bucket in range {
+                v.push(unsafe { bucket.to_base_index(base) });
+            }
+            out.push(v);
+        }
+        let mut out = Vec::new();
+        let range = unsafe { self.iter() }.iter;
+        rec(range, 0, self.data_end(), decide, &mut out);
+        out
+    }
+}
+
+fn layout_of(elem_size: usize, elem_align: usize) -> TableLayout {
+    TableLayout {
+        size: elem_size,
+        ctrl_align: if elem_align > Group::WIDTH {
+            elem_align
+        } else {
+            Group::WIDTH
+        },
+    }
+}
+
+/// `(size, ctrl_align)` of the real `TableLayout::new::<T>()`.
+pub fn table_layout_of<T>() -> (usize, usize) {
+    let l = TableLayout::new::<T>();
+    (l.size, l.ctrl_align)
+}
+
+/// The real `capacity_to_buckets` for an element of the given size and
+/// alignment. `cap` must not be zero.
+pub fn capacity_to_buckets(cap: usize, elem_size: usize, elem_align: usize) -> Option<usize> {
+    super::capacity_to_buckets(cap, layout_of(elem_size, elem_align))
+}
+
+/// The real `bucket_mask_to_capacity`.
+pub fn bucket_mask_to_capacity(bucket_mask: usize) -> usize {
+    super::bucket_mask_to_capacity(bucket_mask)
+}
+
+/// The real `TableLayout::calculate_layout_for`; `buckets` must be a power
+/// of two. Returns `(size, align, ctrl_offset)`.
+pub fn calculate_layout_for(
+    elem_size: usize,
+    elem_align: usize,
+    buckets: usize,
+) -> Option<(usize, usize, usize)> {
+    layout_of(elem_size, elem_align)
+        .calculate_layout_for(buckets)
+        .map(|(l, off)| (l.size(), l.align(), off))
+}
+
+/// The first `n` positions of the real probe sequence of `hash` in a table
+/// with the given `bucket_mask`.
+pub fn probe_positions(hash: u64, bucket_mask: usize, n: usize) -> Vec<usize> {
+    let inner = RawTableInner {
+        bucket_mask,
+        ctrl: RawTableInner::NEW.ctrl,
+        growth_left: 0,
+        items: 0,
+    };
+    let mut seq = inner.probe_seq(hash);
+    let mut out = Vec::with_capacity(n);
+    for i in 0..n {
+        if i != 0 {
+            seq.move_next(bucket_mask);
+        }
+        out.push(seq.pos);
+    }
+    out
+}
+
+/// The real `h1`.
+pub fn h1(hash: u64) -> usize {
+    super::h1(hash)
+}
